@@ -11,6 +11,19 @@ FAILING = [
     ("ok-described", b"# Replace foo with bar.\n# Second line.\n@@\n@@\n-foo()\n+bar()\n", b"package p\n\nfunc f() { foo() }\n"),
 ]
 BROKEN_GO = b"package p\n\nfunc f( {\n"
+# files a dry run (any run) must leave alone
+DISTRACTORS = {"pkg/a.go.123456789.tmp": b"stale\n", "pkg/b.go~": b"backup\n", "pkg/c.go.orig": b"orig\n", "pkg/.d.go.swp": b"swap\n",
+               "notes.txt": b"n\n", "pkg/sub/.hidden": b"h\n", "pkg/go.mod": b"module x\n", "x.go.1.tmp": b"t\n", "pkg/e.go.bak": b"bak\n"}
+WRAP_PATCH = b"@@\nvar x expression\n@@\n-foo(x)\n+foo(wrap(x))\n"
+WRAP_FILES = {"pkg/a.go": b"package pkg\n\nfunc A() { foo(1) }\n", "pkg/sub/b.go": b"package sub\n\nfunc B() { foo(2) }\n",
+              "c.go": b"package c\n\nfunc C() { foo(3) }\n", "d.go": b"package c\n\nfunc D() {}\n"}
+OVERLAPS = [
+    ["./...", "<CWD>/pkg/a.go", "pkg", "c.go", "./c.go"],
+    ["<CWD>", "."],
+    ["pkg/a.go", "<CWD>/pkg/a.go", "pkg/../pkg/a.go"],
+    ["pkg/sub", "<CWD>/pkg/...", "d.go"],
+    ["c.go", "c.go", "<CWD>/c.go", "./..."],
+]
 
 
 def main():
@@ -30,6 +43,16 @@ def main():
                     fl = {"diff": mode == "diff", "print": mode == "print", "skip_imports": si}
                     scs.append(Scenario(c["patches"], {fn: data}, fl, name="%s/%s" % (c["name"], fn)))
                     meta.append(("agree", c["name"], fn, si, mode))
+    # layout variants of the targets: CRLF line endings, no trailing newline
+    for c in (gold if thorough else gold[:12]):
+        for fn, data in sorted(c["inputs"].items())[:1]:
+            for vname, vdata in (("crlf", data.replace(b"\n", b"\r\n")), ("nonl", data.rstrip(b"\n"))):
+                if b"`" in data:
+                    continue
+                for mode in ("write", "print", "diff"):
+                    fl = {"diff": mode == "diff", "print": mode == "print"}
+                    scs.append(Scenario(c["patches"], {fn: vdata}, fl, name="%s/%s[%s]" % (c["name"], fn, vname)))
+                    meta.append(("agree", c["name"] + "[" + vname + "]", fn, False, mode))
     # descriptions: a described change, three modes, two files of which one matches
     for mode in ("write", "print", "diff"):
         fl = {"diff": mode == "diff", "print": mode == "print"}
@@ -51,9 +74,25 @@ def main():
         for fl in flagsets if thorough else flagsets[::3]:
             scs.append(Scenario([("p.patch", ptxt)], {"a.go": src, "sub/b.go": src, "c.go": BROKEN_GO}, fl, name="dry:" + name))
             meta.append(("dry", name, "", fl.get("skip_imports", False), "dry"))
+    # dry runs over directory arguments, in trees that also hold files gopatch has no business with
+    for j, c in enumerate(gold[::2] if not thorough else gold):
+        for fl in (flagsets if thorough else [flagsets[(j * 3) % len(flagsets)]]):
+            files = {"pkg/" + fn: d for fn, d in c["inputs"].items()}
+            sc = Scenario(c["patches"], files, fl, args=[[".", "./...", "pkg", "pkg/..."][j % 4]], name="drydir:" + c["name"])
+            sc.extra_files = dict(DISTRACTORS)
+            scs.append(sc)
+            meta.append(("dry", c["name"], "", fl.get("skip_imports", False), "dry"))
+    # whole-tree agreement with overlapping spellings of the same files and a non-idempotent patch
+    for j, args in enumerate(OVERLAPS):
+        for si in ((False, True) if thorough else (False,)):
+            for mode in ("write", "print", "diff"):
+                fl = {"diff": mode == "diff", "print": mode == "print", "skip_imports": si}
+                scs.append(Scenario([("p.patch", WRAP_PATCH)], dict(WRAP_FILES), fl, args=args, name="overlap%d" % j))
+                meta.append(("overlap", "overlap%d" % j, "", si, mode))
     results = clicorr.run_scenarios(scs, api=True)
 
     agree = {}
+    overlap = {}
     for r, m in zip(results, meta):
         sc, ob = r["sc"], r["obs"]
         kind, cname, fn, si, mode = m
@@ -68,6 +107,8 @@ def main():
                 ck.violation("dry run (%s) changed the tree: %s" % ([k for k, v in sc.flags.items() if v], ch), rep)
         if kind == "agree":
             agree.setdefault((cname, fn, si), {})[mode] = r
+        if kind == "overlap":
+            overlap.setdefault((cname, si), {})[mode] = r
         if kind == "desc":
             want = b"a.go:Replace foo with bar.\na.go:Second line.\n"
             if mode == "write":
@@ -104,14 +145,16 @@ def main():
             applied = udiff.apply({fn.encode(): orig}, df["obs"]["stdout"]).get(fn.encode(), orig) if df["obs"]["stdout"] else orig
         except udiff.DiffError as e:
             ck.violation("--diff output for %s/%s does not apply to the original: %s" % (cname, fn, e),
-                         dict(rep, diff=df["obs"]["stdout"].decode("utf-8", "replace")))
+                         dict(rep, diff=df["obs"]["stdout"].decode("utf-8", "replace")),
+                         finding_class="crlf-target-diff" if b"\r\n" in orig else None)
             continue
         n_agree += 1
         if not (written == printed == applied):
             which = "written!=printed" if written != printed else "diff-applied!=written"
             ck.violation("output modes disagree for %s/%s (%s)" % (cname, fn, which),
                          dict(rep, written=written.decode("utf-8", "replace"), printed=printed.decode("utf-8", "replace"),
-                              applied=applied.decode("utf-8", "replace")))
+                              applied=applied.decode("utf-8", "replace")),
+                         finding_class=("crlf-target-diff" if b"\r\n" in orig else "no-final-newline-diff" if (not orig.endswith(b"\n") and applied + b"\n" == written) else None) if written == printed else None)
         ff = w["facts"]["files"][0]
         if len(w["sc"].patches) == 1 and not si:
             if ff.get("api_panic") or ff["api_err"]:
@@ -120,6 +163,38 @@ def main():
                 ck.violation("library API result differs from the bytes written by the command line for %s/%s" % (cname, fn),
                              dict(rep, api=unb64(ff["api_out"]).decode("utf-8", "replace"), written=written.decode("utf-8", "replace")))
     ck.notes["mode_agreement_triples"] = n_agree
+    for (cname, si), d in sorted(overlap.items()):
+        w, p, df = d["write"], d["print"], d["diff"]
+        rep = dict(w["sc"].describe(), skip_imports=si)
+        cwd_w = w["obs"]["cwd"]
+        written = {rel: v[1] for rel, v in w["obs"]["after"].items() if v[0] == "f"}
+        orig = {rel: v[1] for rel, v in w["obs"]["before"].items() if v[0] == "f"}
+        # print: concatenation, in path order, of the new (or unchanged) contents
+        exp_print = b"".join(written[os.path.relpath(ab, cwd_w)] for ab, _ in w["targets"])
+        if p["obs"]["stdout"] != exp_print:
+            ck.violation("%s: --print-only output differs from the bytes written in place (files visited: %s)"
+                         % (cname, [os.path.relpath(ab, cwd_w) for ab, _ in w["targets"]]),
+                         dict(rep, printed=p["obs"]["stdout"].decode("utf-8", "replace"), written={k: v.decode("utf-8", "replace") for k, v in written.items()}))
+        # diff: applied to the original tree gives the written tree
+        names = {}
+        for rel, data in orig.items():
+            names[rel.encode()] = data
+            names[os.path.join(df["obs"]["cwd"], rel).encode()] = data
+        try:
+            applied = udiff.apply(names, df["obs"]["stdout"])
+            tree = dict(orig)
+            for nm, data in applied.items():
+                rel = nm.decode()
+                rel = os.path.relpath(rel, df["obs"]["cwd"]) if os.path.isabs(rel) else rel
+                tree[rel] = data
+            nfiles = len(udiff.split_files(df["obs"]["stdout"]))
+            if tree != written or nfiles != len(applied):
+                ck.violation("%s: applying the --diff output to the original tree does not give the bytes written in place "
+                             "(or a file is diffed more than once)" % cname,
+                             dict(rep, diff=df["obs"]["stdout"].decode("utf-8", "replace")))
+        except udiff.DiffError as e:
+            ck.violation("%s: --diff output does not apply to the original tree: %s" % (cname, e),
+                         dict(rep, diff=df["obs"]["stdout"].decode("utf-8", "replace")))
 
     # ---------------- (3) system-call level: dry runs issue no mutating call below the tree
     st_scs = []
